@@ -39,6 +39,15 @@ Theorem C04_statement_forms_partial :
   forall g opt f xv r, exec_form g Strict opt f xv = Ok r -> exec_form g Relaxed opt f xv = Ok r.
 Proof. exact exec_form_strict_relaxed. Qed.
 
+(* a float literal with an integral value (2.0, 4.0) meeting an integer operand, on either side: in every
+   mode it is the literal that adapts, so the result keeps the integer's kind (n / 2.0 with n = 7 is int 3 under
+   strict AND relaxed: the integer is never promoted to float64); with C04_binop_partial the values agree too *)
+Theorem C04_float_literal_partial :
+  forall m o k v z r,
+    (binop m o (VInt k v, false) (VFlt z, true) = Ok r \/ binop m o (VFlt z, true) (VInt k v, false) = Ok r) ->
+    exists y, r = VInt k y /\ in_range k y.
+Proof. exact float_literal_adapts. Qed.
+
 Theorem C04_boundaries_partial : C04_statement_boundaries.
 Proof.
   repeat split; [exact binop_strict_relaxed|exact store_strict_relaxed|exact argument_strict_relaxed|
@@ -54,6 +63,13 @@ Example C04_nonvacuous :
   wf (VInt Int 7) /\ retval Strict (KI U64) (VInt Int 7, true) = Ok (VInt U64 7) /\
   increment cfg_now Strict (VInt I32 2147483647) (VInt Int 1, true) = Ok (VInt I32 (-2147483648)).
 Proof. vm_compute. repeat split; congruence. Qed.
+Example C04_nonvacuous_float_literal :
+  binop Strict Div (VInt Int 7, false) (VFlt 2, true) = Ok (VInt Int 3) /\
+  binop Relaxed Div (VInt Int 7, false) (VFlt 2, true) = Ok (VInt Int 3) /\
+  binop Strict Mul (VFlt 3, true) (VInt I8 100, false) = Ok (VInt I8 44) /\
+  binop Relaxed Mul (VFlt 3, false) (VInt I8 100, true) = Ok (VFlt 300) /\
+  store Strict (VFlt 1) (VInt Int 9007199254740993, true) = Ok (VFlt 9007199254740992).
+Proof. vm_compute. repeat split; reflexivity. Qed.
 Example C04_strict_removes_programs :
   binop Strict Add (VInt I32 1, false) (VInt I64 1, false) = Err ETypeMismatch /\
   binop Relaxed Add (VInt I32 1, false) (VInt I64 1, false) = Ok (VInt I64 2) /\
